@@ -201,6 +201,13 @@ func Sig(tag string) {
 	mu.Unlock()
 }
 
+// Failed reports whether an assertion failed since the last Load.
+func Failed() bool {
+	mu.Lock()
+	defer mu.Unlock()
+	return len(Failures) > 0
+}
+
 // TagSuffix renders the active signature tags (" | t1 | t2").
 func TagSuffix() string {
 	mu.Lock()
@@ -337,3 +344,7 @@ func CidKey(c cid.Cid) string {
 	}
 	return "?"
 }
+
+// GateSeq(key): like Gate, but the recorded order is the order of passage through the gate itself
+// (used at call-backs that run inside a critical section of the code under test).
+func GateSeq(key string) { Gate(key) }
